@@ -55,7 +55,8 @@ func genTravTree(r *rand.Rand, depth int) V {
 			// found is found: a pointer to a zero-valued (or freed) instance, a typed nil pointer and a plain []any are values like
 			// any other at the END of a path, and nothing to descend into in the middle of one (whatever the index options say)
 			st.Xs = append(st.Xs, []V{{T: 'o', Ty: 22, ID: 1}, {T: 'o', Ty: 20, ID: 3}, {T: 'o', Ty: 5, ID: 1}, {T: 'o', Ty: 23, ID: 1},
-				{T: 'A', Xs: []V{{T: 's', S: "x"}, {T: 's', S: "y"}}}, {T: 'A'}}[r.Intn(6)])
+				{T: 'A', Xs: []V{{T: 's', S: "x"}, {T: 's', S: "y"}}}, {T: 'A'},
+				{T: 'o', Ty: 33, ID: 1}, {T: 'o', Ty: 34, ID: 1}}[r.Intn(8)]) // (33 / 34: a struct that embeds a Stack has Traverse promoted to it and is no Stack for that)
 		default:
 			st.Xs = append(st.Xs, V{T: 'i', I: int64(nextLeaf)})
 		}
